@@ -241,6 +241,7 @@ class HmacRules:
                 cap['sh_this'] = st.mem.get((this[1], this[2] + ('$dyn',))) if this and this[0] == 'p' else None
                 cap['sh_len'] = ln
                 cap['sh_out'] = outp
+                cap['sh_out_count'] = st.mem.get((outp[1], ('$count',))) if outp[0] == 'p' else None
                 if src[0] == 'p' and ln[0] == 'c' and src[2] and isinstance(src[2][-1], int):
                     cap['outer'] = [I.load(st, (src[1], src[2][:-1] + (src[2][-1] + i,))) for i in range(ln[1])]
                 return [(st, ('void',))]
@@ -299,4 +300,21 @@ class HmacRules:
                 rec.ob('R08.a', 'R08.a@%s::length-member-is-digest-length' % fkey(f), bool(okl), where, 'hash mode %d: tag length member = %s (digest %s)' % (ht, show(ln[0]) if ln else '?', L))
             for what, wh in I.unmodelled:
                 rec.broke('unmodelled construct in tag computation: %s at %s' % (what, wh))
+            # R11.h: the same engine object used again, with any hash mode: the buffer the outer digest is written to holds that digest
+            for ht2 in (0, 1, 2):
+                for s, v in res:
+                    s2 = s.copy()
+                    models.set_fpos(s2, 'f', sym('p0'))
+                    cap.clear()
+                    args2 = [C(ht2) if a_ == C(ht) and p_['n'] == 'hashtype' else a_ for a_, p_ in zip(args, f['params'])]
+                    I.run(f, s2, this=P(HM, ()), args=args2)
+                    dyn2 = cap.get('fh_this')
+                    L2 = self.hashers.get(dyn2[1] if dyn2 else None, {}).get('gethlen')
+                    cnt = cap.get('sh_out_count')
+                    okc = None
+                    if cnt is not None and L2 is not None and is_int(cnt):
+                        okc = compare('>=', cnt, C(L2), s2.sym)
+                    rec.ob('R11.h', 'R11.h@%s::digest-buffer-holds-the-digest-on-reuse' % fkey(f), okc, where,
+                           'hash mode %d after hash mode %d on one engine object: the outer digest (%s bytes) is written into %s, an allocation of %s byte(s)' % (
+                               ht2, ht, L2, show(cap.get('sh_out')) if cap.get('sh_out') else '?', show(cnt) if cnt is not None else 'unknown size'))
         rec.count('R08.a hash modes', ncases, 3)
